@@ -39,7 +39,7 @@ TEXT = ("Bounded model checking of the real per-format readers and writers (pixm
         "format definition, bit-replicated widening, absent alpha = 1, absent colour = 0) for every pixel value and every x offset (all "
         "sub-byte phases, 24-bpp phases); scanline and single-pixel readers agree; a store changes only the addressed pixel's bits (every "
         "other pixel and the row padding unchanged) and keeps the most significant bits; write-back of a read value is the identity; the "
-        "accessor recompilation behaves identically; float widening/narrowing maps 0->0.0, max->1.0, is strictly monotone and round-trips.")
+        "accessor recompilation behaves identically; the float readers of narrow formats (fetch_pixel_float / fetch_scanline_float) agree bit for bit and widen from the native channel width; float widening/narrowing maps 0->0.0, max->1.0, is strictly monotone and round-trips.")
 NOTE = ("Trusted: the oracle decoder in harness/C10/fmt.c and oracle/arith.h (o_widen8/o_narrow8); little-endian bit order convention. "
         "Palette formats c8/g8/c4/g4/g1 have their own instances (two palette entries symbolic); YUV, sRGB and the wide (10-bit, float) storage formats are outside this check's oracle.")
 RULE = "C10 instance = format x (direct | accessors | float path)."
